@@ -101,7 +101,8 @@ TRet ==
    /\ IsEvent("Ret") /\ pc = "done" /\ NE(g) > 0
    /\ out = Rec[l].out
    /\ SetOfSeq(Rec[l].used) = 0..(ctr - 1)            \* exactly the coordinates read acquired a use
-   /\ logs = Rec[l].logs
+   /\ (~cfg.debug => Rec[l].logs = <<>>)   \* nothing is logged when print_debug_info is off; with it on, the key names are
+                                           \* the repository's business (Sample!LogsOK documents the present ones)
    /\ UNCHANGED vars
 
 TQ ==
